@@ -653,7 +653,45 @@ def run(cx):
             cases.append(c)
         else:
             discarded += 1
+    # -- single-contour almost-convex polygons with ONE special vertex (reflex beyond the second diagonal, reflex,
+    #    exactly collinear, barely reflex/convex within and beyond epsilon), under EVERY cyclic rotation of the list
+    nrot = 0
+    for b in range(cx.pick(16, 120)):
+        n = rng.choice([5, 5, 6, 7, 8, 11])
+        base = regular(n, 0.0, 0.0, 4.0, phase=rng.random(), g=1024.0)
+        j = rng.randrange(n)
+        mx = (Fraction(base[j - 1][0]) + Fraction(base[(j + 1) % n][0])) / 2
+        my = (Fraction(base[j - 1][1]) + Fraction(base[(j + 1) % n][1])) / 2
+        # t < 1: pulled towards the centre; t > 1: beyond the centre (beyond the diagonal of its second neighbours)
+        t = rng.choice([Fraction(0), Fraction(1, 2 ** 44), -Fraction(1, 2 ** 44), Fraction(1, 2 ** 20), -Fraction(1, 2 ** 20),
+                        Fraction(1, 4), Fraction(1, 2), Fraction(3, 4), Fraction(7, 8), Fraction(5, 4), Fraction(3, 2),
+                        Fraction(2), Fraction(5, 2), Fraction(3)] if b % 2 else
+                       [Fraction(3, 4), Fraction(7, 8), Fraction(5, 4), Fraction(3, 2), Fraction(2), Fraction(5, 2)])
+        base[j] = (float(mx * (1 - t)), float(my * (1 - t)))
+        for r in range(n):
+            c = base[r:] + base[:r]
+            cc = {"id": "o%d_%d" % (b, r), "tag": "one-special-vertex", "eps": -1.0,
+                  "polys": [[(k, x, y) for k, (x, y) in enumerate(c)]], "corpus": False, "expected": None}
+            if valid_input(cc["polys"]):
+                cases.append(cc)
+                nrot += 1
+    # -- rotation invariance: for a sample of cases of every family, every contour's list cyclically rotated and the
+    #    contour order permuted; validity and triangle count must not depend on where the lists start
+    for c in list(cases[ncorpus:]):
+        if c["tag"] == "one-special-vertex" or int(hashlib.sha256(c["id"].encode()).hexdigest(), 16) % 6 != 0:
+            continue
+        cs = [[(x, y) for (_, x, y) in p] for p in c["polys"]]
+        cs = [p[r:] + p[:r] for p in cs for r in [rng.randrange(len(p))]]
+        rng.shuffle(cs)
+        idx, ip = 0, []
+        for p in cs:
+            ip.append([(idx + k, x, y) for k, (x, y) in enumerate(p)])
+            idx += len(p)
+        cases.append({"id": c["id"] + "r", "tag": c["tag"] + "~rot", "eps": c["eps"], "polys": ip, "corpus": False,
+                      "expected": None, "rot_of": c["id"]})
+        nrot += 1
     cx.cov["generated_invalid_discarded"] = discarded
+    cx.cov["rotation_cases"] = nrot
     lines = [case_line(c) for c in cases]
     kl = lambda l: l.split()[1] if l.startswith("CASE") else None
     ko = lambda l: l.split()[1] if l.startswith("DONE ") else None
@@ -790,6 +828,13 @@ def run(cx):
                 if not ccw:
                     rejected = True
                     cx.violation("tri-not-ccw", "%d returned triangle(s) are clockwise beyond 2*epsilon, evaluated exactly (case %s variant %d)" % (nbad, cid, v), vrep)
+        # rotation invariance of the count
+        if c.get("rot_of") and res.get(c["rot_of"]) and len(res[c["rot_of"]]) == 4:
+            for v in (0, 1):
+                if len(r[v]["tris"]) != len(res[c["rot_of"]][v]["tris"]):
+                    rejected = True
+                    cx.violation("rotation-changes-count", "rotating the contours' vertex lists / permuting the contours changes the triangle count: %d vs %d (case %s, variant %d)"
+                                 % (len(r[v]["tris"]), len(res[c["rot_of"]][v]["tris"]), cid, v), dict(replay, original=c["rot_of"]))
         # variants: same code path => identical output
         if r[1]["tris"] != r[2]["tris"] or r[1]["eps"] != r[2]["eps"]:
             cx.violation("reuse-changes-result", "a reused PolygonTriangulator returns a different triangulation than a fresh one (case %s)" % cid,
